@@ -16,4 +16,42 @@ def transformGuards (ax : AxisM α) (method : TMethod) : Res Unit :=
   else if method = .conservative ∧ (alookup Pos.outer ax.coords).isNone then .error .runtime
   else .ok ()
 
+/-! ### naming (`_parse_target`, `_target_data_name_handling`, `input_handling`) -/
+
+/-- how the target levels are given: a bare array, a DataArray with one dimension, or a DataArray
+    with several dimensions (which needs `target_dim`) -/
+inductive TargetKind where
+  | bare
+  | oneDim (dim : String)
+  | manyDim
+  deriving DecidableEq, Repr
+
+/-- name of `target_data` as `transform` sees it: when none is given, the grid dataset's coordinate
+    of the array's position along the axis (named like its dimension); an anonymous one is called
+    TRANSFORMED_DIMENSION (on a copy) -/
+def targetDataName (given : Option (Option String)) (axisDim : String) : String :=
+  match given with
+  | none => axisDim
+  | some none => "TRANSFORMED_DIMENSION"
+  | some (some n) => n
+
+/-- the name of the new dimension: `target_dim` if given, else the target's own dimension, else
+    (bare array) the name of `target_data`; `none`: a many-dimensional target without `target_dim` -/
+def transformDimName (target : TargetKind) (targetDim : Option String) (tdata : Option (Option String))
+    (axisDim : String) : Option String :=
+  match targetDim with
+  | some d => some d
+  | none =>
+    match target with
+    | .oneDim d => some d
+    | .manyDim => none
+    | .bare => some (targetDataName tdata axisDim)
+
+/-- the name of the result: the input's name plus the suffix (default `_transformed`); an anonymous
+    input gives an anonymous result -/
+def transformResultName (input : Option String) (suffix : Option String) : Option String :=
+  match input with
+  | none => none
+  | some n => if n = "" then none else some (n ++ suffix.getD "_transformed")
+
 end Xgcm
